@@ -70,7 +70,7 @@ def bookkeeping_oracle(limit, events, consts):
             else:
                 out.append(("noop", size))
         elif k == "p":
-            out.append(("ok" if limit is None or size + ev[1] <= limit else "viol", size))
+            out.append(("ok" if limit is None or min(size + ev[1], 2**64 - 1) <= limit else "viol", size))
     return out, size
 
 
@@ -94,7 +94,7 @@ def gen_trace(rng):
             if i in ids:
                 ids.remove(i)
         else:
-            events.append(["p", rng.choice([0, 1, rng.randint(0, 2 * scale), scale, 10**12])])
+            events.append(["p", rng.choice([0, 1, rng.randint(0, 2 * scale), scale, 10**12, 2**64 - 1, 2**64 - 2])])
     return limit, events
 
 
